@@ -31,7 +31,8 @@ def showLink (c : L) : String :=
   s!"cto={c.connTimeoutMs} gated={showBool c.stallGated} lat={c.latchedSince} rec={c.recoverySince} " ++
   s!"gev={c.gateEvents} pc={c.probeCounter} pulled={showBool c.silencePulled} mark={showOptNat c.pullMark} " ++
   s!"pulls={c.silencePulls} weak={showBool c.weak} ld={showBool c.lossDegraded} cct={c.ccTarget} " ++
-  s!"qm={fbits c.qualMult} qat={c.qualAt} nakc={c.nakCount} lnak={c.lastNakMs} burst={c.nakBurst}"
+  s!"qm={fbits c.qualMult} qat={c.qualAt} nakc={c.nakCount} lnak={c.lastNakMs} burst={c.nakBurst} " ++
+  s!"srtt={fbits c.srtt} rttmin={fbits c.rttMin} br={fbits c.bitrate}"
 
 def showLinks (ls : List L) : String := " | ".intercalate (ls.map showLink)
 
@@ -40,8 +41,9 @@ def mkLink (i now : Nat) : L :=
     srtt := 0.0, rttMin := 200.0, bitrate := 0.0, qualMult := 1.0 }
 
 def setSrtt (c : L) (v : Float) : L :=
-  -- real side: kalman.reset(); kalman.update(v) (ignored if non-finite); get_smooth_rtt_ms = value.max(0.0)
-  let x := if v.isFinite then rustFmax v 0.0 else 0.0
+  -- real side: kalman.reset(); kalman.update(v) (ignored if non-finite); get_smooth_rtt_ms = value.max(0.0).
+  -- `(-0.0f64).max(0.0)` is `+0.0` on the real side (observed), so every non-positive input reads `+0.0`.
+  let x := if v.isFinite && v > 0.0 then v else 0.0
   { c with srtt := x, srttPos := decide (x > 0.0), srttTrunc := x.toUInt64.toNat }
 
 def setField (c : L) (k v : String) : Option L :=
@@ -52,6 +54,7 @@ def setField (c : L) (k v : String) : Option L :=
   | "inf" => v.toInt?.map fun x => { c with inFlight := x }
   | "q" => v.toInt?.map fun x => { c with queued := x }
   | "lr" => (parseOptNat v).map fun x => { c with lastReceived := x }
+  | "ls" => (parseOptNat v).map fun x => { c with lastSent := x }
   | "proof" => v.toNat?.map fun x => { c with proofMs := x }
   | "est" => v.toNat?.map fun x => { c with established := x }
   | "grace" => v.toNat?.map fun x => { c with graceDeadline := x }
@@ -96,6 +99,52 @@ def parseCfg (toks : List String) : Option Cfg := do
 
 def showRes (r : Option Nat) : String := "res=" ++ showOptNat r
 
+/-- A link with no stall history at all (the same function as `Lemmas/SelectFrame.eraseStall`,
+repeated here because the driver may not import proof files). -/
+def eraseHist (c : L) : L :=
+  { c with stallGated := false, latchedSince := 0, recoverySince := 0, gateEvents := 0, probeCounter := 0,
+           silencePulled := false, pullMark := none, silencePulls := 0 }
+
+/-- `aux` injects fields of the real `SrtlaConnection` that are NOT part of `SLink` (keepalive stamp,
+packet log, CC / RTT / reconnect / bitrate bookkeeping, batch regime).  The model only validates the
+token and leaves the state alone: a later selection that still agrees with the real code shows that
+the real selectors do not read these fields. -/
+def auxOk (k v : String) : Bool :=
+  let nat := v.toNat?.isSome
+  let int := v.toInt?.isSome
+  let bool := (parseBool v).isSome
+  let opt := (parseOptNat v).isSome
+  match k with
+  | "ka" => opt
+  | "log" => nat
+  | "hack" => int
+  | "cbo" => bool
+  | "fr" => bool
+  | "frs" => nat
+  | "lwi" => nat
+  | "cack" => int
+  | "nbs" => nat
+  | "jit" => nat
+  | "wka" => bool
+  | "lks" => nat
+  | "lrm" => nat
+  | "rmf" => nat
+  | "rms" => nat
+  | "lra" => nat
+  | "rfc" => nat
+  | "bst" => nat
+  | "bsw" => nat
+  | "lru" => nat
+  | "regime" => v == "0" || v == "1" || v == "2"
+  | _ => false
+
+def auxAllOk : List String → Bool
+  | [] => true
+  | t :: rest =>
+    match t.splitOn "=" with
+    | [k, v] => auxOk k v && auxAllOk rest
+    | _ => false
+
 def step (ls : List L) (toks : List String) : List L × String :=
   let bad := (ls, "bad-op")
   match toks with
@@ -131,6 +180,26 @@ def step (ls : List L) (toks : List String) : List L × String :=
       let (l3, r3) := selectIdx l2 (match r1 with | some r => some r | none => last) now cfg
       (l3, showRes r1 ++ " res2=" ++ showOptNat r2 ++ " res3=" ++ showOptNat r3 ++ " | " ++ showLinks l3)
     | _, _, _ => bad
+  | "offbase" :: last :: now :: rest =>
+    -- C12 "off means baseline": two guard-off decisions on the current links and on a history-free clone
+    match parseOptNat last, now.toNat?, parseCfg rest with
+    | some last, some now, some cfg =>
+      let cfg := { cfg with stallDeselect := false }
+      let (l1, r1) := selectIdx ls last now cfg
+      let (b1, rb1) := selectIdx (ls.map eraseHist) last now cfg
+      let last2 := match r1 with | some r => some r | none => last
+      let (l2, r2) := selectIdx l1 last2 now cfg
+      let (_, rb2) := selectIdx b1 last2 now cfg
+      (l2, showRes r1 ++ " base=" ++ showOptNat rb1 ++ " res2=" ++ showOptNat r2 ++ " base2=" ++ showOptNat rb2 ++
+        " | " ++ showLinks l2)
+    | _, _, _ => bad
+  | "aux" :: i :: rest =>
+    match i.toNat? with
+    | some i =>
+      match ls[i]? with
+      | some _ => if auxAllOk rest then (ls, showLinks ls) else bad
+      | none => bad
+    | none => bad
   | "gate" :: now :: rest =>
     match now.toNat?, parseCfg rest with
     | some now, some cfg =>
